@@ -3,7 +3,8 @@
 spec/lib/CborTok.tla      token-level CBOR items, Ser, pushdown well-formedness machine
 spec/cbor/CborHelpers.tla Acc / Dec / Enc / View per wrapper instantiation; the property's laws
   MC  : MCCborHelpers - every (instantiation, item) of the bounded domains decoded, re-encoded, mutated;
-        laws (a) Dec(Enc(v)) = v, (b) preserving wrappers Enc(Dec(i)) = i, (c) KeepRaw mutation, as invariants;
+        laws (a) Dec(Enc(v)) = v, (b) preserving wrappers Enc(Dec(i)) = i, (c) KeepRaw mutation for every way of
+        obtaining the KeepRaw (decoded, to_owned, clone, From<T>/serde) and for nested KeepRaw, as invariants;
         MCCborTok - the well-formedness machine accepts exactly the token streams of items
   M1  : GenCborHelpers prints one vector per (instantiation, item): input bytes, expected re-encoding,
         expected bytes after the scripted DerefMut mutation, the abstract value; pv-cbor helpers-replay
@@ -72,6 +73,31 @@ def judge(row, res):
                 vio.append(("%s/mutation-reencode" % ty,
                             "%s decoded from %s, after deref_mut().push(3), encodes as %s; new content encodes as %s"
                             % (ty, inp, hexs(res.get("mut") or []), hexs(row["mut"]))))
+        # every way of holding the decoded KeepRaw: same bytes before, new content after the script
+        obs = res.get("origins") or {}
+        if row["mutable"] and "panic" in obs:
+            vio.append(("%s/mutation-panic" % ty, "%s decoded from %s: clone / to_owned / mutate panics: %s" % (ty, inp, obs["panic"])))
+            obs = {}
+        for o, got in sorted(obs.items()) if row["mutable"] else []:
+            want = row["origins"]["from" if o == "serde" else o]
+            for phase in ("before", "after"):
+                if got[phase] == want[phase]:
+                    continue
+                if got[phase] == want[phase + "_lh"] and row["mut_lhw"]:
+                    for w in row["mut_lhw"]:
+                        vio.append(("%s/definite-length-head-width-lost" % w,
+                                    "%s decoded from %s (%s, %s the mutation) encodes as %s (%s does not keep the width of a definite length head)"
+                                    % (ty, inp, o, phase, hexs(got[phase]), w)))
+                elif phase == "after":
+                    vio.append(("%s/mutation-reencode/%s" % (ty, o),
+                                "%s decoded from %s, obtained by %s, after the DerefMut script encodes as %s; new content encodes as %s"
+                                % (ty, inp, o, hexs(got[phase]), hexs(want[phase]))))
+                elif o in ("from", "serde") or not row["pres"]:
+                    drift.append("%s built %s from %s encodes as %s, design model %s" % (ty, o, inp, hexs(got[phase]), hexs(want[phase])))
+                else:
+                    vio.append(("%s/copy-reencode-differs/%s" % (ty, o),
+                                "%s decoded from %s, obtained by %s, encodes as %s instead of the original bytes"
+                                % (ty, inp, o, hexs(got[phase]))))
     else:
         if res["dec"] == "panic":
             drift.append("%s panics on %s: %s" % (ty, inp, res.get("msg")))
@@ -116,7 +142,8 @@ def run(ctx):
                required_actions=["DecAnyUInt", "DecMaybeIndefArray", "DecKeyValuePairs", "DecNonEmptyKeyValuePairs",
                                  "DecNullable", "DecKeepRaw", "DecAnyCbor", "DecVec", "DecSet", "DecNonEmptySet",
                                  "DecCborWrap", "DecTagWrap", "DecZeroOrOneArray", "DecOrderPreservingProperties",
-                                 "DecEmptyMap", "DecBytes", "DecInt", "DecByDatatype", "Encode", "DerefMut", "Drop"])
+                                 "DecEmptyMap", "DecBytes", "DecInt", "DecByDatatype", "Encode", "ToOwned", "CloneIt", "FromInner",
+                                 "DerefMut", "Drop"])
 
     # 2. M1: TLC vectors -> real types
     gcfg = ctx.path("GenCborHelpers.cfg")
@@ -162,12 +189,17 @@ def run(ctx):
         obs = dict(results[j])
         obs["mut"] = results[j]["enc"]
         ctx.selftest("stale raw bytes after mutation in vector %d" % j, any("mutation" in k for k, _ in judge(rows[j], obs)[0]))
+        k2 = next(k for k in clean if rows[k]["mutable"] and rows[k]["ty"].startswith("keepraw<vec<keepraw"))
+        o3 = json.loads(json.dumps(results[k2]))
+        o3["origins"]["owned"]["after"] = o3["origins"]["owned"]["before"]
+        ctx.selftest("stale raw bytes after mutating a to_owned() nested KeepRaw in vector %d" % k2,
+                     any("mutation-reencode/owned" in k for k, _ in judge(rows[k2], o3)[0]))
         obs2 = dict(results[i])
         obs2["redec"] = dict(obs2["redec"], same=False)
         ctx.selftest("unequal value after round trip in vector %d" % i, any("value-roundtrip" in k for k, _ in judge(rows[i], obs2)[0]))
 
     return ctx.finish(
-        rule="MC: laws (a)(b)(c) on the specification over all items of the bounded domains (26 wrapper instantiations, "
+        rule="MC: laws (a)(b)(c) on the specification over all items of the bounded domains (28 wrapper instantiations, "
              "payloads 0/23/24/255/256/65535/65536/2^32-1/2^32/2^64-1 at every head width, def/indef containers to depth 3); "
              "M1: every such item replayed into the real types: accepted => same bytes for the form-retaining wrappers, "
              "decode(encode(v)) = v for decoded and for built values, KeepRaw mutation encodes the new content",
